@@ -1,3 +1,6 @@
+/-
+  K7 — basic facts about the notifications of a client trace.
+-/
 import Sio.Model.ClientSpec
 namespace Sio.Client
 
